@@ -72,7 +72,7 @@ class Universe:
         for fname, blocks in info['blocks'].items():
             for b in blocks:
                 fnpath = None
-                if b['directive'] in ('fn', 'loop', 'before', 'after', 'inline', 'body-start'):
+                if b['directive'] in ('fn', 'loop', 'before', 'after', 'inline', 'inline-after', 'body-start', 'loop-body'):
                     fnpath = b['args'].split()[0]
                 if b['directive'] == 'fn':
                     m = re.search(r'nopanic=([A-Z0-9,]+)', b['args'])
@@ -106,7 +106,7 @@ def short_fn(fnpath):
     return re.sub(r'[<>]', '', fnpath).replace(' for ', '_for_').replace('::', '.').replace(' ', '_')
 
 
-def locate(info, fname, line):
+def locate(info, fname, line, col=None):
     """map woven (file, line) -> dict(kind='src'|'ins', ...)"""
     f = info['files'].get(fname)
     if not f or line < 1 or line > len(f['linemap']):
@@ -121,6 +121,13 @@ def locate(info, fname, line):
         tag = blk['tags'].get(str(e['off']))
         return {'kind': 'ins', 'file': fname, 'block': blk, 'off': e['off'], 'tag': tag, 'fn': fn,
                 'text': blk['lines'][e['off']].strip(), 'sidecar': '%s:%d' % (blk['sidecar'], blk['sidecar_line'] + e['off'])}
+    if col is not None:
+        for (c0, c1, bid) in e.get('inl', []):
+            if c0 <= col < c1:
+                blk = info['blocks'][fname][bid]
+                tags = [blk['tags'][k] for k in sorted(blk['tags'], key=int)]
+                return {'kind': 'ins', 'file': fname, 'block': blk, 'off': 0, 'tag': tags[0] if tags else None, 'fn': fn,
+                        'text': ' '.join(x.strip() for x in blk['lines']), 'sidecar': '%s:%d' % (blk['sidecar'], blk['sidecar_line'])}
     return {'kind': 'src', 'file': fname, 'line': e['src'], 'fn': fn, 'inl': e.get('inl')}
 
 
@@ -140,7 +147,7 @@ def attribute(d, info, uni):
     cands = []
     prim = None
     for s in spans:
-        loc = locate(info, os.path.basename(s['file_name']), s['line_start'])
+        loc = locate(info, os.path.basename(s['file_name']), s['line_start'], s.get('column_start'))
         if loc is None:
             continue
         if s.get('is_primary') and prim is None:
